@@ -711,8 +711,21 @@ theorem popManyLoop_full (now : Int) (n fuel : Nat) (q : List QItem) (got : List
   | succ f => rw [popManyLoop_succ, if_pos h]
 
 /-- outcome of the machine's run against the outcome of the specification's loop -/
-def PopOut (out : RStore × QPC × Nat) (a : AbsState) (res : List QItem × List Probe × Nat) (fresh : Nat) : Prop :=
-  out.2.1 = .done (.probes res.2.1 res.2.2) ∧ RelQ out.1 { a with queue := res.1 } ∧ Consistent out.1 ∧ out.2.2 = fresh
+def PopOut (st0 : RStore) (out : RStore × QPC × Nat) (a : AbsState) (res : List QItem × List Probe × Nat) (fresh : Nat) : Prop :=
+  out.2.1 = .done (.probes res.2.1 res.2.2) ∧ RelQ out.1 { a with queue := res.1 } ∧ Consistent out.1 ∧ out.2.2 = fresh ∧
+  out.1.insItems = st0.insItems ∧ out.1.insUpdated = st0.insUpdated
+
+theorem popBatch_insItems (st : RStore) (ids : List Nat) : (st.popBatch ids).1.insItems = st.insItems := by
+  show (ids.foldl (fun s id => { s with pItems := s.pItems.erase id, pQueue := s.pQueue.erase id }) st).insItems = _
+  induction ids generalizing st with
+  | nil => rfl
+  | cons id ids ih => rw [List.foldl_cons, ih]
+
+theorem popBatch_insUpdated (st : RStore) (ids : List Nat) : (st.popBatch ids).1.insUpdated = st.insUpdated := by
+  show (ids.foldl (fun s id => { s with pItems := s.pItems.erase id, pQueue := s.pQueue.erase id }) st).insUpdated = _
+  induction ids generalizing st with
+  | nil => rfl
+  | cons id ids ih => rw [List.foldl_cons, ih]
 
 theorem dropBatch_length_lt {q batch : List QItem} {x : QItem} (hx : x ∈ batch) (hq : x ∈ q) :
     (dropBatch q batch).length < q.length := by
@@ -726,7 +739,7 @@ theorem dropBatch_length_lt {q batch : List QItem} {x : QItem} (hx : x ∈ batch
 theorem popLoop_refines (clock : Int) (n : Int) (fresh : Nat) :
     ∀ (fuelA : Nat) (st : RStore) (a : AbsState) (got : List Probe) (e : Nat) (fuelM : Nat),
       Consistent st → RelQ st a → got.length < n.toNat → a.queue.length < fuelA → 2 * a.queue.length + 1 ≤ fuelM →
-      PopOut (runQ st clock fresh (.popMany n) (.popRange got e) fuelM) a
+      PopOut st (runQ st clock fresh (.popMany n) (.popRange got e) fuelM) a
         (AbsState.popManyLoop clock n.toNat fuelA a.queue got e) fresh := by
   intro fuelA
   induction fuelA with
@@ -747,7 +760,7 @@ theorem popLoop_refines (clock : Int) (n : Int) (fresh : Nat) :
       exact (mem_readySorted.1 ((List.take_sublist _ _).subset hx)).1
     by_cases hb : batch.isEmpty = true
     · rw [if_pos hb, if_pos hb, runQ_done]
-      exact ⟨rfl, h, hc, rfl⟩
+      exact ⟨rfl, h, hc, rfl, rfl, rfl⟩
     · rw [if_neg hb, if_neg hb]
       have hne : batch ≠ [] := fun e => hb (by rw [e]; rfl)
       obtain ⟨x, hx⟩ := List.exists_mem_of_ne_nil batch hne
@@ -760,10 +773,11 @@ theorem popLoop_refines (clock : Int) (n : Int) (fresh : Nat) :
       rw [runQ_succ_live _ _ _ _ _ _ rfl, p1, p2, p3, hfr, batch_items h batch hsub, popNext_batch n got e batch clock hne]
       by_cases hlt : (got ++ (keptOf batch clock).map (·.probe)).length < n.toNat
       · rw [if_pos hlt]
-        exact ih _ _ _ _ m' hc' h' hlt (by show (dropBatch a.queue batch).length < fuelA; omega)
+        obtain ⟨r1, r2, r3, r4, r5, r6⟩ := ih _ _ _ _ m' hc' h' hlt (by show (dropBatch a.queue batch).length < fuelA; omega)
           (by show 2 * (dropBatch a.queue batch).length + 1 ≤ m'; omega)
+        exact ⟨r1, r2, r3, r4, r5.trans (popBatch_insItems _ _), r6.trans (popBatch_insUpdated _ _)⟩
       · rw [if_neg hlt, runQ_done, popManyLoop_full _ _ _ _ _ _ (by omega)]
-        exact ⟨rfl, h', hc', rfl⟩
+        exact ⟨rfl, h', hc', rfl, popBatch_insItems _ _, popBatch_insUpdated _ _⟩
 
 /-- **`PopMany(n)` run alone refines `AbsState.popMany`**: same probes in the same order, same expired count, related
 states.  `2·ZCARD + 1` commands always suffice. -/
@@ -773,12 +787,14 @@ theorem popMany_refines_aux {st : RStore} {a : AbsState} (hc : Consistent st) (h
       .done (.probes (a.popMany clock n).2.1 (a.popMany clock n).2.2) ∧
     RelQ (runQ st clock fresh (.popMany n) (QOp.popMany n).begin fuel).1 (a.popMany clock n).1 ∧
     Consistent (runQ st clock fresh (.popMany n) (QOp.popMany n).begin fuel).1 ∧
-    (runQ st clock fresh (.popMany n) (QOp.popMany n).begin fuel).2.2 = fresh := by
+    (runQ st clock fresh (.popMany n) (QOp.popMany n).begin fuel).2.2 = fresh ∧
+    (runQ st clock fresh (.popMany n) (QOp.popMany n).begin fuel).1.insItems = st.insItems ∧
+    (runQ st clock fresh (.popMany n) (QOp.popMany n).begin fuel).1.insUpdated = st.insUpdated := by
   by_cases hn : n ≤ 0
   · have hb : (QOp.popMany n).begin = .done (.probes [] 0) := by simp [QOp.begin, hn]
     have ha : a.popMany clock n = (a, [], 0) := by simp [AbsState.popMany, hn]
     rw [hb, runQ_done, ha]
-    exact ⟨rfl, h, hc, rfl⟩
+    exact ⟨rfl, h, hc, rfl, rfl, rfl⟩
   · have hb : (QOp.popMany n).begin = .popRange [] 0 := by simp [QOp.begin, hn]
     have ha : a.popMany clock n =
         ({ a with queue := (AbsState.popManyLoop clock n.toNat (a.queue.length + 1) a.queue [] 0).1 },
@@ -789,5 +805,180 @@ theorem popMany_refines_aux {st : RStore} {a : AbsState} (hc : Consistent st) (h
     unfold AbsState.qCount at hsz
     rw [hb, ha]
     exact popLoop_refines clock n fresh (a.queue.length + 1) st a [] 0 fuel hc h (by simp; omega) (by omega) (by omega)
+
+/-! ## histories of instance-table / probe-queue calls -/
+
+theorem RelI.congr {st st' : RStore} {a a' : AbsState} (h : RelI st a) (h1 : st'.insItems = st.insItems)
+    (h2 : st'.insUpdated = st.insUpdated) (h3 : a'.instances = a.instances) : RelI st' a' := by
+  intro id; rw [h1, h2, h3]; exact h id
+
+theorem RelQ.congr {st st' : RStore} {a a' : AbsState} (h : RelQ st a) (h1 : st'.pItems = st.pItems)
+    (h2 : st'.pQueue = st.pQueue) (h3 : a'.queue = a.queue) (h4 : a'.nextId = a.nextId) : RelQ st' a' := by
+  refine ⟨?_, by rw [h3]; exact h.nodup, by rw [h1, h4]; exact h.ltItems, by rw [h2, h4]; exact h.ltQueue⟩
+  intro id
+  have : storedItem st' id = storedItem st id := by unfold storedItem; rw [h1, h2]
+  rw [h3, this]; exact h.find id
+
+theorem enqueue_instances (a : AbsState) (clock : Int) (p : Probe) (after before : GoTime) :
+    (a.enqueue clock p after before).instances = a.instances := by
+  rcases enqueue_begin_cases p after before with hb | ⟨af, bf, rfl, rfl, hge⟩
+  · rw [enqueue_keep _ _ _ _ _ hb]
+  · rw [enqueue_drop _ _ _ _ _ hge]
+
+theorem popMany_instances (a : AbsState) (clock : Int) (n : Int) : (a.popMany clock n).1.instances = a.instances := by
+  unfold AbsState.popMany
+  split <;> rfl
+
+theorem popMany_nextId (a : AbsState) (clock : Int) (n : Int) : (a.popMany clock n).1.nextId = a.nextId := by
+  unfold AbsState.popMany
+  split <;> rfl
+
+/-- an instance-table or probe-queue call, a read of either, or a clock advance between calls -/
+inductive QCall where
+  | insAdd (i : Instance)
+  | insGet (id : Nat)
+  | insRemove (id : Nat)
+  | insClear (before : GoTime)
+  | insCount
+  | enqueue (p : Probe) (after before : GoTime)
+  | popMany (n : Int)
+  | qCount
+  | tick (d : Int)
+
+/-- replies, in the reply types of `Call` (`Model/Prog.lean`) -/
+inductive QRes where
+  | unit (r : Except RErr Unit)
+  | ins (r : Except RErr Instance)
+  | cleared (r : Except RErr Nat)
+  | probes (r : Except RErr (List Probe × Nat))
+  | size (n : Nat)
+  | hung                              -- the call did not finish within its command budget
+  | none
+
+def QRes.ofQ : QResult → QRes
+  | .unit => .unit (.ok ())
+  | .count n => .cleared (.ok n)
+  | .probes ps e => .probes (.ok (ps, e))
+
+/-- sequential state of the Redis-level model: keyspace, clock, next probe id -/
+structure SeqQ where
+  st : RStore
+  clock : Int
+  fresh : Nat
+
+/-- command budget of one call: `PopMany` needs at most `2·ZCARD + 1` commands, everything else at most 2 -/
+def SeqQ.budget (s : SeqQ) : Nat := 2 * s.st.pQueue.size + 3
+
+/-- run one machine call alone to completion -/
+def SeqQ.call (s : SeqQ) (op : QOp) : SeqQ × QRes :=
+  let out := runQ s.st s.clock s.fresh op op.begin s.budget
+  ({ s with st := out.1, fresh := out.2.2 }, match out.2.1 with | .done r => QRes.ofQ r | _ => .hung)
+
+/-- one call on the Redis-level model -/
+def stepQM (s : SeqQ) : QCall → SeqQ × QRes
+  | .insAdd i => s.call (.insAdd i.id i.addr)
+  | .insGet id => (s, .ins (insGetM s.st id))
+  | .insRemove id => s.call (.insRemove id)
+  | .insClear before => s.call (.insClear before)
+  | .insCount => (s, .size s.st.insItems.size)
+  | .enqueue p after before => s.call (.enqueue p after before)
+  | .popMany n => s.call (.popMany n)
+  | .qCount => (s, .size s.st.pQueue.size)
+  | .tick d => ({ s with clock := s.clock + d }, .none)
+
+/-- one call on the specification: `Call.exec`, i.e. exactly what the use-case programs run -/
+def stepQS (s : AbsState × Int) : QCall → (AbsState × Int) × QRes
+  | .insAdd i => ((((Call.insAdd i).exec s.1 s.2).1, s.2), .unit ((Call.insAdd i).exec s.1 s.2).2)
+  | .insGet id => (s, .ins ((Call.insGet id).exec s.1 s.2).2)
+  | .insRemove id => ((((Call.insRemove id).exec s.1 s.2).1, s.2), .unit ((Call.insRemove id).exec s.1 s.2).2)
+  | .insClear before => ((((Call.insClear before).exec s.1 s.2).1, s.2), .cleared ((Call.insClear before).exec s.1 s.2).2)
+  | .insCount => (s, .size s.1.insCount)
+  | .enqueue p after before =>
+    ((((Call.enqueue p after before).exec s.1 s.2).1, s.2), .unit ((Call.enqueue p after before).exec s.1 s.2).2)
+  | .popMany n => ((((Call.popMany n).exec s.1 s.2).1, s.2), .probes ((Call.popMany n).exec s.1 s.2).2)
+  | .qCount => (s, .size s.1.qCount)
+  | .tick d => ((s.1, s.2 + d), .none)
+
+def runHistQM : SeqQ → List QCall → List QRes
+  | _, [] => []
+  | s, c :: cs => (stepQM s c).2 :: runHistQM (stepQM s c).1 cs
+
+def runHistQS : AbsState × Int → List QCall → List QRes
+  | _, [] => []
+  | s, c :: cs => (stepQS s c).2 :: runHistQS (stepQS s c).1 cs
+
+/-- the simulation invariant between calls -/
+structure SimQ (m : SeqQ) (s : AbsState × Int) : Prop where
+  cons : Consistent m.st
+  relI : RelI m.st s.1
+  relQ : RelQ m.st s.1
+  fresh : m.fresh = s.1.nextId
+  clock : m.clock = s.2
+
+theorem simQ_init (clock : Int) : SimQ ⟨{}, clock, 0⟩ ({}, clock) :=
+  ⟨consistent_empty, relI_empty, relQ_empty, rfl, rfl⟩
+
+theorem stepQ_sim {m : SeqQ} {s : AbsState × Int} (h : SimQ m s) (c : QCall) :
+    SimQ (stepQM m c).1 (stepQS s c).1 ∧ (stepQM m c).2 = (stepQS s c).2 := by
+  obtain ⟨st, clock, fresh⟩ := m
+  obtain ⟨a, t⟩ := s
+  obtain ⟨hc, hI, hQ, hf, hcl⟩ := h
+  simp only at hc hI hQ hf hcl
+  subst hcl
+  have hb : 3 ≤ SeqQ.budget ⟨st, clock, fresh⟩ := by unfold SeqQ.budget; omega
+  cases c with
+  | insAdd i =>
+    have hrun := runQ_insAdd st clock fresh i.id i.addr (fuel := SeqQ.budget ⟨st, clock, fresh⟩) (by omega)
+    simp only [stepQM, stepQS, SeqQ.call, hrun, Call.exec]
+    exact ⟨⟨insAddBatch_consistent hc _ _ _, relI_insAddBatch hI clock i, hQ.congr rfl rfl rfl rfl, hf, rfl⟩, rfl⟩
+  | insGet id =>
+    refine ⟨⟨hc, hI, hQ, hf, rfl⟩, ?_⟩
+    simp only [stepQM, stepQS, Call.exec, insGet_refines_aux hI]
+  | insRemove id =>
+    have hrun := runQ_insRemove st clock fresh id (fuel := SeqQ.budget ⟨st, clock, fresh⟩) (by omega)
+    simp only [stepQM, stepQS, SeqQ.call, hrun, Call.exec]
+    exact ⟨⟨insRemoveBatch_consistent hc _, relI_insRemoveBatch hI id, hQ.congr rfl rfl rfl rfl, hf, rfl⟩, rfl⟩
+  | insClear before =>
+    obtain ⟨r1, r2, r3⟩ := insClear_refines_aux hc hI clock fresh before (fuel := SeqQ.budget ⟨st, clock, fresh⟩) (by omega)
+    have hcons := runQ_consistent hc clock fresh (.insClear before) (QOp.insClear before).begin (SeqQ.budget ⟨st, clock, fresh⟩)
+    have hframe : (runQ st clock fresh (.insClear before) (QOp.insClear before).begin (SeqQ.budget ⟨st, clock, fresh⟩)).1.pItems = st.pItems ∧
+        (runQ st clock fresh (.insClear before) (QOp.insClear before).begin (SeqQ.budget ⟨st, clock, fresh⟩)).1.pQueue = st.pQueue := by
+      rw [runQ_insClear _ _ _ _ (by omega)]
+      split
+      · exact ⟨rfl, rfl⟩
+      · exact ⟨insClearBatch_pItems _ _, insClearBatch_pQueue _ _⟩
+    simp only [stepQM, stepQS, SeqQ.call, Call.exec, r1, r3]
+    exact ⟨⟨hcons, r2, hQ.congr hframe.1 hframe.2 rfl rfl, hf, rfl⟩, rfl⟩
+  | insCount =>
+    refine ⟨⟨hc, hI, hQ, hf, rfl⟩, ?_⟩
+    simp only [stepQM, stepQS, insCount_refines_aux hI]
+  | enqueue p after before =>
+    obtain ⟨r1, r2, r3⟩ := enqueue_refines_aux hQ clock fresh hf p after before (fuel := SeqQ.budget ⟨st, clock, fresh⟩) (by omega)
+    have hcons := runQ_consistent hc clock fresh (.enqueue p after before) (QOp.enqueue p after before).begin (SeqQ.budget ⟨st, clock, fresh⟩)
+    have hframe : (runQ st clock fresh (.enqueue p after before) (QOp.enqueue p after before).begin (SeqQ.budget ⟨st, clock, fresh⟩)).1.insItems = st.insItems ∧
+        (runQ st clock fresh (.enqueue p after before) (QOp.enqueue p after before).begin (SeqQ.budget ⟨st, clock, fresh⟩)).1.insUpdated = st.insUpdated := by
+      rcases enqueue_begin_cases p after before with hb' | ⟨af, bf, rfl, rfl, hge⟩
+      · rw [runQ_enqueue _ _ _ _ _ _ hb' (by omega)]; exact ⟨rfl, rfl⟩
+      · rw [runQ_enqueue_drop _ _ _ _ _ _ hge]; exact ⟨rfl, rfl⟩
+    simp only [stepQM, stepQS, SeqQ.call, Call.exec, r1]
+    exact ⟨⟨hcons, hI.congr hframe.1 hframe.2 (enqueue_instances _ _ _ _ _), r2, r3, rfl⟩, rfl⟩
+  | popMany n =>
+    obtain ⟨r1, r2, r3, r4, r5, r6⟩ := popMany_refines_aux hc hQ clock fresh n (fuel := SeqQ.budget ⟨st, clock, fresh⟩)
+      (by show 2 * st.pQueue.size + 1 ≤ 2 * st.pQueue.size + 3; omega)
+    simp only [stepQM, stepQS, SeqQ.call, Call.exec, r1, r4]
+    exact ⟨⟨r3, hI.congr r5 r6 (popMany_instances _ _ _), r2, by rw [popMany_nextId]; exact hf, rfl⟩, rfl⟩
+  | qCount =>
+    refine ⟨⟨hc, hI, hQ, hf, rfl⟩, ?_⟩
+    simp only [stepQM, stepQS, qCount_refines_aux hc hQ]
+  | tick d => exact ⟨⟨hc, hI, hQ, hf, rfl⟩, rfl⟩
+
+theorem runHistQ_sim {m : SeqQ} {s : AbsState × Int} (h : SimQ m s) (cs : List QCall) :
+    runHistQM m cs = runHistQS s cs := by
+  induction cs generalizing m s with
+  | nil => rfl
+  | cons c cs ih =>
+    have := stepQ_sim h c
+    show (stepQM m c).2 :: runHistQM (stepQM m c).1 cs = (stepQS s c).2 :: runHistQS (stepQS s c).1 cs
+    rw [this.2, ih this.1]
 
 end Swat4
